@@ -4,8 +4,10 @@ use kvarn::prelude::*;
 use std::collections::BTreeMap;
 
 /// the fixture tree: path relative to `root` -> marker content. host.path = root/site.
-const FILES: [(&str, &str); 12] = [
+const FILES: [(&str, &str); 14] = [
     ("secret.txt", "SENTINEL-ROOT"),
+    ("site/secret.html", "SENTINEL-SITE-HTML"),
+    ("site/index.html", "SENTINEL-SITE-INDEX"),
     ("site/secret2.txt", "SENTINEL-SITE"),
     ("site/public.txt", "SENTINEL-BESIDE"),
     ("site/public/index.html", "PUB-INDEX"),
@@ -67,7 +69,7 @@ fn gen_target(rng: &mut Rng, toks: &[&str]) -> String {
     }
     s
 }
-const TOKS: [&str; 22] = ["/", ".", "%2e", "%2E", "%2f", "%2F", "%5c", "%00", "%25", "%ff", "%c0%ae", "a", "b", "x", "n", "index", "html", "secret", "public", "..", "%c3%bc", "txt"];
+const TOKS: [&str; 25] = ["/", ".", "%2e", "%2E", "%2f", "%2F", "%5c", "%00", "%25", "%ff", "%c0%ae", "a", "b", "x", "n", "index", "html", "secret", "public", "..", "%c3%bc", "txt", "%252e", "%252f", "%3F"];
 
 pub struct PathOk;
 impl Group for PathOk {
@@ -253,7 +255,10 @@ impl Group for Read {
         let mut v = Vec::new();
         let fixed = ["/", "/a/", "/a/b.html", "/n.", "/a/x", "/..", "/a/..", "/a/../secret2.txt", "/../secret2.txt", "/%2e%2e/secret2.txt", "/a/%2e%2e/%2e%2e/secret2.txt",
             "/%2e%2e%2fsecret2.txt", "/..%2fsecret2.txt", "/%ff/%2e%2e/x", "//etc/passwd", "/%2fetc/passwd", "/.", "/a/.", "/a/%2e", "/%c3%bc.txt", "/./cors_fail", "/%2e/cors_fail", "/a//b.html", "/a/./b.html",
-            "/a/b.html%00", "/..%00/", "/public.txt", "/%2e%2e/public.txt", "/a/b%2ehtml", "/c.txt", "/index.html", "/.%2e/secret2.txt", "/a/..%2f..%2fsecret2.txt", "/%252e%252e/secret2.txt"];
+            "/a/b.html%00", "/..%00/", "/public.txt", "/%2e%2e/public.txt", "/a/b%2ehtml", "/c.txt", "/index.html", "/.%2e/secret2.txt", "/a/..%2f..%2fsecret2.txt", "/%252e%252e/secret2.txt",
+            // doubly encoded dot segments on targets that the `/`-and-`.` expanding Prime rewrites (a rewrite must not decode)
+            "/%252e%252e/secret.", "/%252e%252e/", "/%252e%252e/secret2.txt%3F/", "/%252e%252e/secret2.txt%3F.", "/%252E%252E%252Fsecret.", "/a/%252e%252e/%252e%252e/secret.",
+            "/%252e%252e%252f", "/a%252f..%252f..%252fsecret."];
         for t in fixed {
             for m in ["GET", "HEAD", "POST"] {
                 for h in 0..4 {
